@@ -1,2 +1,120 @@
--- line-protocol driver for C17 (stub; replaced when the property is built)
-def main : IO Unit := IO.println "stub"
+import Verif.Model.FailClosed
+/-!
+  Line-protocol driver for C17 (fail-closed issuance).
+
+    run op=<op> e=<n> a=<n> chk=<i|-> faults=<pos:kind,…|-> sub=…
+        → <ok|err> got=<cert|ack|none> tok=Δ stored=Δ data=Δ rev=Δ reuse=<ok|err|na> trace=<kind:outcome,…|->
+      (ACME: … acme=Δ valid=<0|1> instead of rev / reuse)
+    src fn=<go function>
+        → the order of the external calls / decisions the model assumes inside that function,
+          each with its error treatment, e.g. `check!,enrich!,check!,authorize!,casSign!,store!~;ret`
+-/
+open Verif Verif.FailClosed
+
+namespace C17
+
+def lookup (kv : List (String × String)) (k : String) : Option String :=
+  (kv.find? (·.1 = k)).map (·.2)
+
+def op? : String → Option Op
+  | "sign" => some .sign | "renew" => some .renew | "rekey" => some .rekey
+  | "revoke" => some .revoke | "revokemtls" => some .revokeMTLS
+  | "sshsign" => some .sshSign | "sshrenew" => some .sshRenew | "sshrekey" => some .sshRekey
+  | "sshrevoke" => some .sshRevoke | "acme" => some .acmeFinalize
+  | _ => none
+
+def outcome? : String → Option Outcome
+  | "ok" => some .ok | "error" => some .error | "timeout" => some .timeout
+  | "deny" => some .deny | "malformed" => some .malformed
+  | _ => none
+
+def fault? (t : String) : Option (Nat × Outcome) :=
+  match t.splitOn ":" with
+  | [p, k] => do pure ((← p.toNat?), (← outcome? k))
+  | _ => none
+
+def faults? (t : String) : Option (List (Nat × Outcome)) :=
+  if t = "-" then some [] else (t.splitOn ",").mapM fault?
+
+def faultFn (fs : List (Nat × Outcome)) (n : Nat) : Outcome :=
+  match fs.find? (·.1 = n) with
+  | some p => p.2
+  | none => .ok
+
+def b (x : Bool) : String := if x then "1" else "0"
+
+def trace (l : List Ev) : String :=
+  if l.isEmpty then "-" else ",".intercalate (l.map fun ev => ev.kind.str ++ ":" ++ ev.out.str)
+
+def evalRun (kv : List (String × String)) : Option String := do
+  let op ← op? (← lookup kv "op")
+  let ne ← (← lookup kv "e").toNat?
+  let na ← (← lookup kv "a").toNat?
+  let chkS ← lookup kv "chk"
+  let chk : Option Nat ← if chkS = "-" then some none else chkS.toNat?.map some
+  let fs ← faults? (← lookup kv "faults")
+  let g : Nat → Bool := fun i => some i != chk
+  let e : Env := { f := faultFn fs, g := g }
+  let c : Cfg := ⟨ne, na⟩
+  let d0 : Durable := {}
+  let r := runOp e op c d0
+  let d := r.1.d
+  let cl := client op r
+  let clS := if cl = .error then "err" else "ok"
+  let got := match cl with | .error => "none" | .certificate => "cert" | .revoked => "ack"
+  -- the identical request again, no faults, on the state the first attempt left
+  let reuse :=
+    if op.usesToken then
+      (if client op (runOp { f := fun _ => .ok, g := g } op c d) = .error then "err" else "ok")
+    else "na"
+  let head := s!"{clS} got={got} tok={b d.tokenSpent} stored={d.certs} data={d.datas}"
+  let tail := if op = .acmeFinalize then s!" acme={d.acmeCerts} valid={b d.orderValid}" else s!" rev={b d.revoked} reuse={reuse}"
+  pure (head ++ tail ++ s!" trace={trace r.1.log}")
+
+/-- collapse runs of webhook steps: the source has one call per webhook kind -/
+def collapse : List Kind → List Kind
+  | a :: b :: rest => if a = b ∧ a.isWebhook then collapse (b :: rest) else a :: collapse (b :: rest)
+  | l => l
+
+def renderSrc (ks : List Kind) : String :=
+  ",".intercalate ((collapse ks).map fun k => k.str ++ k.guard) ++ ";ret"
+
+def one : Cfg := ⟨1, 1⟩
+
+def evalSrc (fn : String) : String :=
+  match fn with
+  | "authorizeToken" => renderSrc authorizeTokenSteps
+  | "authorizeSign" => renderSrc authorizeSteps
+  | "signX509" => renderSrc (signX509Steps one)
+  | "authorizeRenew" => renderSrc authorizeRenewSteps
+  | "StoreRenewedCertificate" => renderSrc storeRenewedSteps
+  | "renewContext" => renderSrc renewContextSteps
+  | "Revoke" => renderSrc revokeTokenSteps ++ "|" ++ renderSrc revokeSSHSteps
+  | "signSSH" => renderSrc (signSSHSteps one)
+  | "renewSSH" => renderSrc renewSSHSteps
+  | "rekeySSH" => renderSrc rekeySSHSteps
+  | "Finalize" => renderSrc (finalizeSteps 1 one)
+  | "DoWithContext" =>
+    -- the client's decision table: first attempt × second attempt → allowed?
+    let os := [Outcome.ok, .error, .timeout, .deny, .malformed]
+    " ".intercalate (os.map fun o1 =>
+      o1.str ++ "=" ++ String.join (os.map fun o2 =>
+        let e : Env := { f := fun n => if n = 0 then o1 else o2, g := fun _ => true }
+        let r := webhook e { d := {} } .enrich
+        (if r.1 then "A" else "R") ++ toString r.2.log.length))
+  | _ => "unknown-function"
+
+def eval (line : String) : Option String := do
+  let fs := fields line
+  let kv := fs.filterMap fun f =>
+    match f.splitOn "=" with
+    | [k, v] => some (k, v)
+    | _ => none
+  match fs.head? with
+  | some "run" => evalRun kv
+  | some "src" => (lookup kv "fn").map evalSrc
+  | _ => none
+
+end C17
+
+def main : IO Unit := Verif.lineLoop fun l => (C17.eval l).getD "parse-error"
